@@ -9,19 +9,23 @@ while [ $# -gt 0 ]; do case $1 in --suite) SUITE=1;; --checks) CHECKS="$2"; shif
 WT=$(mktemp -d /tmp/mut_XXXXXX); rmdir $WT
 git -C /repo worktree add -q --detach $WT HEAD || exit 2
 trap 'git -C /repo worktree remove --force $WT >/dev/null 2>&1' EXIT
+LOGP=/tmp/seedtest_$(basename $WT)
 cd $WT
-/venv/bin/python $DIR/demo.py $WT >/tmp/seed_demo_clean.log 2>&1; echo "demo clean exit=$?"
+/venv/bin/python $DIR/demo.py $WT >$LOGP.demo_clean.log 2>&1; echo "demo clean exit=$?"
 git checkout -q -- . ; git clean -fdq
 git apply $DIR/patch.diff || { echo "patch does not apply"; exit 2; }
-/venv/bin/python $DIR/demo.py $WT >/tmp/seed_demo_mut.log 2>&1; echo "demo mutant exit=$? ($(tail -1 /tmp/seed_demo_mut.log | cut -c1-150))"
+/venv/bin/python $DIR/demo.py $WT >$LOGP.demo_mut.log 2>&1; echo "demo mutant exit=$? ($(tail -1 $LOGP.demo_mut.log | cut -c1-150))"
 if [ $SUITE = 1 ]; then
   (timeout 1500 /venv/bin/python -m pytest -q -p no:cacheprovider --timeout=900 --continue-on-collection-errors 2>&1 | tail -2 | tr '\n' ' '; echo)
   git checkout -q -- tests 2>/dev/null
 fi
 cd /verif
+export VERIF_KEEP_LEAN=1     # the private lake workspace of this mutated tree is shared by the checks below
 for c in $CHECKS; do
-  VERIF_REPO=$WT ./check $c > /tmp/seed_check_$c.log 2>&1; rc=$?
-  echo "check $c exit=$rc :: $(grep -c '^VIOLATION' /tmp/seed_check_$c.log) violation(s), $(grep -c 'no-failing-input-found' /tmp/seed_check_$c.log) without input, $(grep -c '^KNOWN-FINDING' /tmp/seed_check_$c.log) known :: $(grep -E '^VIOLATION|^MACHINERY' /tmp/seed_check_$c.log | head -2 | tr '\n' ' ') $(tail -1 /tmp/seed_check_$c.log | cut -c1-120)"
+  VERIF_REPO=$WT ./check $c > $LOGP.check_$c.log 2>&1; rc=$?
+  echo "check $c exit=$rc :: $(grep -c '^VIOLATION' $LOGP.check_$c.log) violation(s), $(grep -c 'no-failing-input-found' $LOGP.check_$c.log) without input, $(grep -c '^KNOWN-FINDING' $LOGP.check_$c.log) known :: $(grep -E '^VIOLATION|^MACHINERY' $LOGP.check_$c.log | head -2 | tr '\n' ' ') $(tail -1 $LOGP.check_$c.log | cut -c1-120)"
 done
-# files generated from the mutated tree must not stay behind
-(cd /verif && /venv/bin/python -W ignore::SyntaxWarning -m harness.regen >/dev/null 2>&1)
+# runs against another tree work in a private copy of the lake workspace (core.prepare_lean_dir): drop it
+PRIV="$(VERIF_REPO=$WT /venv/bin/python -c 'from harness import core; print(core.LEAN_DIR)')"
+rm -f $LOGP.*
+case "$PRIV" in /verif/out/lean_*) rm -rf "$PRIV" "$PRIV.lock";; esac
